@@ -29,6 +29,7 @@ var splitIFS = []struct {
 	{"empty", false, ""},
 	{"sp_u1", false, " é"},
 	{"comma_one", false, ",1"},
+	{"sp_only", false, " "},
 }
 
 type splitCase struct {
